@@ -314,7 +314,11 @@ Section Reader.
     bind rd_template (fun tpl =>
       match assocZ f tpl with
       | Some (Off o) => mapM (fun p => rd_value o p) (zrange 0 rd_G)
-      | Some (Const c) => Return (map (fun _ => c) (zrange 0 (hx_rd_fill_len (f_hel F))))   (* np.full(.., template[f]) *)
+      | Some (Const c) =>                                   (* np.full(.., template[f]); values[~mask] = 0 *)
+          let ps := zrange 0 (hx_rd_fill_len (f_hel F)) in
+          if hx_rd_fill_masked (f_is3d F) rd_structured
+          then bind (rd_mask tpl) (fun present => Return (map (fun p => if memZ p present then c else 0) ps))
+          else Return (map (fun _ => c) ps)
       | None => Raise OtherErr
       end).
 End Reader.
